@@ -28,7 +28,7 @@
    the monitor on the implementation's traces): the history-level counting in S2/S3/S4 and L for the
    loop/executor half. *)
 From Coq Require Import List NArith Bool Arith.
-From GS Require Import Base ReqMgr ReqMgrProofs ReqMgrLive ReqMgrCC.
+From GS Require Import Base ReqMgr ReqMgrProofs ReqMgrLive ReqMgrCC ReqMgrInv ReqMgrInvK.
 Import ListNotations.
 
 (* S1, full: for every plan and every label sequence the event history of the run contains no delivery
@@ -60,6 +60,25 @@ Theorem C04_ctx_cancel_delivers_client_cancelled : forall s ls s' es,
   ec s' = ECExit -> In (EvDelivE ErrCC) es.
 Proof. exact c04_ctx_cancel_cc. Qed.
 Print Assumptions C04_ctx_cancel_delivers_client_cancelled.
+
+(* S2, history level, ClientCancelled half, UNCONDITIONAL: on every run from the initial state, the first
+   context cancel of a request that is still in the table is answered by RequestClientCancelledErr before
+   the returned error channel closes, over every continuation.  (The premise of the previous theorem is
+   discharged by two invariants of all reachable states: closed internal channels imply the entry is gone
+   [computed over the finite abstraction, GS.ReqMgrAbsV], and the collector invariant [GS.ReqMgrInv].) *)
+Theorem C04_live_ctx_cancel_delivers_client_cancelled : forall pl ls1 s1 e1 ls2 s2 e2,
+  run (init pl) ls1 = Some (s1, e1) -> ent s1 <> None -> cctx s1 = false ->
+  run s1 (LEnvCtxCancel :: ls2) = Some (s2, e2) -> ec s2 = ECExit -> In (EvDelivE ErrCC) e2.
+Proof. exact c04_live_ctx_cancel_cc. Qed.
+Print Assumptions C04_live_ctx_cancel_delivers_client_cancelled.
+
+(* Invariants of every reachable state (all plans, all label sequences): the internal channels are closed
+   only after the table entry is gone and the loop is idle again; while the request is in the table and the
+   caller has not cancelled, the error collector listens to the internal error channel. *)
+Theorem C04_closed_entry_gone : forall pl ls s es,
+  run (init pl) ls = Some (s, es) -> iclosed s = true -> ent s = None /\ lpc s = LIdle.
+Proof. exact closed_entry_gone. Qed.
+Print Assumptions C04_closed_entry_gone.
 
 (* S3, handler level: a failure status n for a request in the table with no terminal error yet records
    exactly AsError(n), cancels the request locally and sends nothing. *)
